@@ -12,31 +12,32 @@ import (
 
 type ctlState struct {
 	// recovery model
-	recoveringAt  int64   // sim ms of the last durable "recovering" status (-1 = none pending)
-	restartTimes  []int64 // sim ms of automatic restarts (first plugin call parked)
-	autoRestarts  int
-	userStopOK    bool // a user Stop/StopAndWait/StopAll returned nil and no user Start came after
-	userStopSeq   int
-	forceStopped  bool
-	forceStopSeq  int
-	runStartStep  []int // scheduler step at which each run (first open after a start) began
-	lastStartStep int
-	inFlight      map[string]int // client -> seq of CALL without RET
-	callNote      map[string]string
-	statusAtCall  map[string]int
-	runAtCall     map[string]int
-	degradedErr   string
-	clientDone    map[string]bool
-	startCallStep map[string]int
-	lastAction    map[string]bool
-	lastUserStart int
-	shutdown      bool
-	stopDuringBackoff bool
-	stopKind          string
-	stopClient        string
-	userStartSinceRecovering bool
-	everUserStartDuringRecovery bool
+	recoveringAt                                 int64   // sim ms of the last durable "recovering" status (-1 = none pending)
+	restartTimes                                 []int64 // sim ms of automatic restarts (first plugin call parked)
+	autoRestarts                                 int
+	userStopOK                                   bool // a user Stop/StopAndWait/StopAll returned nil and no user Start came after
+	userStopSeq                                  int
+	forceStopped                                 bool
+	forceStopSeq                                 int
+	runStartStep                                 []int // scheduler step at which each run (first open after a start) began
+	lastStartStep                                int
+	inFlight                                     map[string]int // client -> seq of CALL without RET
+	callNote                                     map[string]string
+	statusAtCall                                 map[string]int
+	runAtCall                                    map[string]int
+	degradedErr                                  string
+	clientDone                                   map[string]bool
+	startCallStep                                map[string]int
+	lastAction                                   map[string]bool
+	lastUserStart                                int
+	shutdown                                     bool
+	stopDuringBackoff                            bool
+	stopKind                                     string
+	stopClient                                   string
+	userStartSinceRecovering                     bool
+	everUserStartDuringRecovery                  bool
 	dstNacks, dlqRejects, procErrors, stuckCalls int
+	restartInProgress                            bool // an automatic restart has begun and the pipeline is not yet reported running again
 }
 
 func newCtlState() *ctlState {
@@ -58,6 +59,7 @@ func (o *Oracles) onPark(w *World, kind string) {
 	now := w.now()
 	d := now - c.recoveringAt
 	c.recoveringAt = -1
+	c.restartInProgress = true
 	if c.userStartSinceRecovering {
 		// a user Start overlapped this recovery episode: whose start this is cannot be told
 		// from the outside (and the user's run inherits the retry counters); count it, check nothing
@@ -90,7 +92,13 @@ func (o *Oracles) onPark(w *World, kind string) {
 func (o *Oracles) onControlEvent(w *World, e *Event) {
 	c := o.ctl
 	switch e.Kind {
+	case "CRASH", "BOOT":
+		// a process crash ends the back-off wait; the start at boot is not a back-off restart
+		c.recoveringAt = -1
+		c.restartTimes = nil
+		c.restartInProgress = false
 	case "STATUS":
+		c.restartInProgress = false
 		switch e.N {
 		case 5:
 			c.recoveringAt = e.T
@@ -167,6 +175,7 @@ func (o *Oracles) onControlEvent(w *World, e *Event) {
 		case "forcestop":
 			if e.OK && e.Kind == "RET" {
 				c.forceStopped, c.forceStopSeq = true, e.Seq
+				c.stopClient = e.Ent
 			}
 		case "wait":
 			o.checkWaitResult(w, e)
@@ -247,7 +256,10 @@ func (o *Oracles) settled(w *World) bool {
 	}
 	if w.memStatus != nil {
 		if ms := w.memStatus(); ms != 0 && ms != st {
-			return false // a status write is still on its way to the store
+			if !o.statusWriteFailedEver {
+				return false // a status write is still on its way to the store
+			}
+			st = ms // a status write failed: the store may never agree, the engine's own view decides
 		}
 	}
 	switch st {
@@ -305,8 +317,22 @@ func (o *Oracles) scenarioChecks(w *World) {
 		if want != "" && !strings.Contains(errText, want) {
 			w.violate("C10", "degraded-without-cause", fmt.Sprintf("scenario %s: stored error does not name the cause (%q expected): %q", w.cfg.Scenario, want, firstLine(errText)))
 		}
-	case "user-stop", "stop-during-backoff":
-		if c.userStopOK && c.stopClient == "user" && st != 3 {
+	case "force-during-restart":
+		// a force stop acknowledged while the automatic restart was under way: the pipeline
+		// ends failed-by-force-stop, not running and not restarted
+		if c.forceStopped && c.stopClient == "user" {
+			if st != 4 {
+				w.violate("C12", "force-stop-status", fmt.Sprintf("a force stop issued during an automatic restart returned success but the final status is %s, expected degraded", statusName(st)))
+			} else if !strings.Contains(errText, "force stop") {
+				w.violate("C12", "force-stop-cause-missing", fmt.Sprintf("pipeline degraded after a force stop but the stored error does not name it: %q", firstLine(errText)))
+			}
+		}
+	case "user-stop", "stop-during-backoff", "stop-during-restart":
+		// a run that had already failed with its retries exhausted when the stop request
+		// arrived (the request raced the failure: the pipeline was not yet marked recovering)
+		// legitimately ends degraded with that cause recorded - the first clause of C10
+		exhausted := st == 4 && strings.Contains(errText, "couldn't be recovered") && !c.stopDuringBackoff
+		if c.userStopOK && c.stopClient == "user" && st != 3 && !exhausted {
 			w.violate("C10", "stopped-status-mismatch", fmt.Sprintf("a user stop returned success but the final status is %s", statusName(st)))
 		}
 	case "stopall", "stopall-during-backoff":
